@@ -993,6 +993,23 @@ func ruleDecodeLoopLeavesOnError(c *core.Ctx) {
 						starts = append(starts, b)
 					}
 				}
+				if !neq && is.Else == nil && len(is.Body.List) > 0 && stmtLeaves(is.Body.List[len(is.Body.List)-1]) {
+					// `if err == nil { continue }`: what follows the if runs with the error set
+					ast.Inspect(loop.Body, func(z ast.Node) bool {
+						blk, ok := z.(*ast.BlockStmt)
+						if !ok {
+							return true
+						}
+						for i, st := range blk.List {
+							if st == ast.Stmt(is) && i+1 < len(blk.List) {
+								if b := fc.BlockOf(blk.List[i+1]); b != nil {
+									starts = append(starts, b)
+								}
+							}
+						}
+						return true
+					})
+				}
 				return true
 			})
 			if decodeBlock == nil || len(starts) == 0 {
